@@ -176,6 +176,15 @@ def lookup(ex, name):
             c = s.same(a[0], a[1])
             return iv(1, int(c)) if isinstance(c, bool) else zbool(c)
         return f
+    if name == 'sym_eq':
+        def f(st, a):
+            x, y = a[0][1], a[1][1]
+            if isinstance(x, float) and isinstance(y, float):
+                if d2bits(x) == d2bits(y) or (x != x and y != y): return iv(1, 1)
+                m = max(1.0, abs(x), abs(y)); return iv(1, int(abs(x - y) <= 1e-9 * m))
+            c = s.same(a[0], a[1])
+            return iv(1, int(c)) if isinstance(c, bool) else zbool(c)
+        return f
     if name == 'sym_reach':
         def f(st, a):
             what = mem.cstr(st, a[0]); s.reached[what] = s.reached.get(what, 0) + 1
@@ -206,9 +215,10 @@ def lookup(ex, name):
         return f
     if name == 'sym_freeze':
         def f(st, a):
+            st.frozen = True
             for i in list(st.mem):
                 o = st.mem[i]
-                if not o.freed and not o.pre:
+                if not o.freed and not o.pre and not o.name.startswith('alloca:'):
                     o = st.wobj(i); o.pre = True
         return f
     if name == 'sym_allow':
@@ -216,7 +226,9 @@ def lookup(ex, name):
             if a[0][0] == 'p' and a[0][1] is not None: st.wobj(a[0][1]).allow = True
         return f
     if name == 'sym_writes':
-        def f(st, a): return iv(32, len(st.writes))
+        def f(st, a):
+            if st.writes: st.log.append('writes to pre-existing objects: ' + ', '.join(st.writes[:6]))
+            return iv(32, len(st.writes))
         return f
     if name == 'sym_event':
         def f(st, a): st.events.append((mem.cstr(st, a[0]), a[1]))
